@@ -3,7 +3,7 @@
 //! definition evaluates with `f64` and with dual numbers (forward-mode differentiation). No
 //! derivative formula of any array operation is written by hand here.
 
-use crate::event::{CustomKind, Op};
+use crate::event::{CostKind, CustomKind, Op};
 
 pub trait Scalar: Copy {
     fn c(x: f64) -> Self;
@@ -246,7 +246,7 @@ fn bidx(idx: &[usize], dims: &[usize]) -> usize {
 /// not admitted (or the form is outside what the reference models).
 pub fn out_dims(op: &Op, a: &[&[usize]]) -> Option<Vec<usize>> {
     match op {
-        Op::Add | Op::Sub | Op::Mul | Op::Div | Op::Axpy(_) => {
+        Op::Add | Op::Sub | Op::Mul | Op::Div | Op::Axpy(_) | Op::Cost(_) => {
             if a.len() != 2 {
                 return None;
             }
@@ -305,7 +305,7 @@ pub fn out_dims(op: &Op, a: &[&[usize]]) -> Option<Vec<usize>> {
                 }
                 Some(a[0].to_vec())
             }
-            CustomKind::Prod2 | CustomKind::Prod2Crate => {
+            CustomKind::Prod2 | CustomKind::Prod2Crate | CustomKind::CrateFwdNoBwd => {
                 if a.len() != 2 || a[0] != a[1] {
                     return None;
                 }
@@ -410,6 +410,26 @@ pub fn eval<S: Scalar>(op: &Op, args: &[(&[usize], &[S])]) -> Vec<S> {
     let od = out_dims(op, &dims).expect("eval called on inadmissible operands");
     let n = numel(&od);
     match op {
+        Op::Cost(kind) => {
+            // mse: (target - output)^2 / numel(output); cross entropy: -target * ln(output) / output.dims[0]
+            let mut out = Vec::with_capacity(n);
+            let mut idx = vec![0; od.len()];
+            let len = numel(args[0].0) as f64;
+            let lead = args[0].0[0] as f64;
+            for f in 0..n {
+                unravel(f, &od, &mut idx);
+                let o = args[0].1[bidx(&idx, args[0].0)];
+                let t = args[1].1[bidx(&idx, args[1].0)];
+                out.push(match kind {
+                    CostKind::Mse => {
+                        let d = t.sub(o);
+                        d.mul(d).scale(1.0 / len)
+                    }
+                    CostKind::CrossEntropy => t.neg().mul(o.ln()).scale(1.0 / lead),
+                });
+            }
+            out
+        }
         Op::Add | Op::Sub | Op::Mul | Op::Div | Op::Axpy(_) => {
             let mut out = Vec::with_capacity(n);
             let mut idx = vec![0; od.len()];
@@ -543,7 +563,7 @@ pub fn eval<S: Scalar>(op: &Op, args: &[(&[usize], &[S])]) -> Vec<S> {
                     s
                 })
                 .collect(),
-            CustomKind::Prod2 | CustomKind::Prod2Crate => (0..n).map(|i| args[0].1[i].mul(args[1].1[i])).collect(),
+            CustomKind::Prod2 | CustomKind::Prod2Crate | CustomKind::CrateFwdNoBwd => (0..n).map(|i| args[0].1[i].mul(args[1].1[i])).collect(),
             CustomKind::NestedSq => args[0].1.iter().map(|x| x.mul(*x)).collect(),
         },
     }
@@ -555,6 +575,7 @@ pub fn in_domain(op: &Op, args: &[(&[usize], &[f64])]) -> bool {
     let within = |xs: &[f64], lo: f64, hi: f64| xs.iter().all(|x| x.abs() >= lo && x.abs() <= hi);
     match op {
         Op::Ln => args[0].1.iter().all(|x| *x >= 0.25 && *x <= 4.0),
+        Op::Cost(CostKind::CrossEntropy) => args[0].1.iter().all(|x| *x >= 0.25 && *x <= 4.0),
         Op::Recip => within(args[0].1, 0.25, 4.0),
         Op::Div => within(args[1].1, 0.25, 4.0),
         Op::Powf(p) => {
